@@ -158,7 +158,10 @@ def _ev_inv(S):
 contract(f"{ME}::evaluate", "C07", cases=EV_CASES, inputs=_ev_inputs, pre=cv_pre,
          raises=[("ValueError", cv_rejects)],
          ensures=[("one-row-per-split", lambda A, r: Eq(r.nrows, cv_count(A)) if r.__class__.__name__ == "STable" else False)],
+         applicable=lambda A: isinstance(A.cv, SObj) and A.cv.cls.name in ("SlidingWindowSplitter", "ExpandingWindowSplitter", "SingleWindowSplitter")
+         and isinstance(A.y, SSeries),
          invariants={0: _ev_inv}, events={0: _ev_events},
+         result=lambda I, A: __import__("pyvc.libpd", fromlist=["STable"]).STable(cv_count(A), "evaluate-result"), record_call=True,
          frame=lambda A: [A.cv],
          notes=["the forecaster and the metric are abstract objects (ghost trace); fit/update move the abstract forecaster's "
                 "cutoff to the last time point they are given (forecaster interface contract, C03)",
